@@ -13,8 +13,8 @@ META = dict(
            "body with optional fields a (leaf of 6 kinds), b, an extra key, or a non-mapping body; layout malformations "
            "(missing/extra top-level keys, wrong key, non-mapping value); near-valid fault budget: the body varies only under a "
            "declared tag in a well-formed layout",
-    configs="3 variant sets (str tags with two variants sharing the same body; int tags; mixed-kind tags) x 3 layouts "
-            "= 9 converters; duplicate-tag type building enumerated (6 types)",
+    configs="7 variant sets (str tags with two variants sharing the same body; int tags; mixed-kind tags; a variant subclassing another; a None tag; the "
+            "same union under a second adjacent key pair; a trailing condition) x 3 layouts; tagged unions wrapped in Optional/Union/Dict/Tuple/a field/a container inside a union; duplicate-tag type building enumerated (6 types)",
     stubs=[],
     outside=["bool/float tag values that compare equal to an int tag (True == 1): not judged",
              "rendered error text only for concrete bodies (rendering realises symbolic leaves)"],
